@@ -125,7 +125,7 @@ Definition template_ok (c : ctx) (lock pk : bytes) : bool :=
   | _ => false
   end.
 
-Definition enc_ok (flags : N) (t : tx) (ht : N) (s : signed_in) : bool :=
+Definition enc_ok (flags : N) (t : tx) (ht : N) (tested : nat) (s : signed_in) : bool :=
   match nthN (tx_ins t) (si_idx s) with
   | None => false
   | Some inp =>
@@ -138,7 +138,12 @@ Definition enc_ok (flags : N) (t : tx) (ht : N) (s : signed_in) : bool :=
           negb (Nat.eqb (length (si_sig s)) 0) &&
           (negb (has_flag c F_CLEANSTACK) || has_flag c F_BIP16) &&
           (lenZ lock <=? max_script_size c)%Z &&
-          template_ok c lock (si_pk s) &&
+          (template_ok c lock (si_pk s) ||
+           (* inputs other than the one under test may carry the library's enriched OP_RETURN tail after the
+              envelope (post-genesis only): outside the acceptance theorem's template, but still run through
+              the interpreter model in [check] *)
+           (after_genesis c && negb (N.of_nat tested =? si_idx s)%N &&
+            bytes_eqb (firstn 25 lock) (p2pkh_lock (hash160 (si_pk s))))) &&
           check_hash_type c ht && match check_sig_enc c (si_sig s) with EncOk => true | _ => false end &&
           check_pubkey_enc c (si_pk s) &&
           ((has_flag c F_FORKID && flag_has ht sh_forkid) ||
@@ -166,7 +171,7 @@ Definition check (k : case) : bool :=
   let orc := table_oracle k in
   let pre := model_preimage (k_tx k) (k_idx k) (k_ht k) in
   sha_is pre (k_pre_sha k) && nodup_b (tx_outs (k_tx k)) &&
-  forallb (fun s => enc_ok (k_flags k) (k_tx k) (k_ht k) s &&
+  forallb (fun s => enc_ok (k_flags k) (k_tx k) (k_ht k) (k_idx k) s &&
                     verdict_is (run_model orc (k_tx k) (si_idx s) (k_flags k)) true) (k_signed k) &&
   forallb (check_mut k orc pre) (k_muts k).
 
